@@ -233,7 +233,23 @@ def steps_part(rep, tier, rng):
         raise core.MachineryError(f"RaireSearchMC: actions never taken: {never}")
     rep.cov["rairesearch_actions"] = seen
     # (B) real searches, event by event
-    rejects, stats = core.validate_traces("Trace_RaireSearch", recs, cfg_consts="", timeout=3000)
+    # the binding is demonstrated on every run: a copy of one recorded search with the frontier of one event reversed
+    # must be rejected (a trace specification that accepts it constrains nothing)
+    import copy
+    canary = None
+    for r in recs:
+        evs = [e for e in r.get("events", []) if e["act"] == "node" and len(e["fr"]) >= 2 and e["fr"][0]["tail"] != e["fr"][-1]["tail"]]
+        if evs:
+            canary = copy.deepcopy(r)
+            canary["tid"] = "canary"
+            ev = [e for e in canary["events"] if e["act"] == "node" and len(e["fr"]) >= 2 and e["fr"][0]["tail"] != e["fr"][-1]["tail"]][0]
+            ev["fr"].reverse()
+            break
+    rejects, stats = core.validate_traces("Trace_RaireSearch", recs + ([canary] if canary else []), cfg_consts="", timeout=3000)
+    if canary is not None and "canary" not in rejects:
+        raise core.MachineryError("Trace_RaireSearch accepted a recorded search whose frontier had been reversed")
+    rejects.pop("canary", None)
+    rep.cov["rairesearch_canary_rejected"] = canary is not None
     rep.add_trace_stats("Trace_RaireSearch", stats)
     nev = sum(len(r.get("events", [])) for r in recs)
     rep.cov["rairesearch_steps"] = {"searches": len(recs), "events": nev, "rejected": len(rejects)}
